@@ -15,6 +15,7 @@ from mc.runner import Result
 
 PROPERTY = "C08"
 LEVEL = "model_checking"
+TECHNIQUE = "bounded exhaustive enumeration of shapes x label arrays x axis subsets x chunk grids against a slice-by-slice reference model"
 ENGINE = "E1"
 RULE = (
     "state = (label shape, extra batch dims, label array over {0,1,NaN}, axis subset (order, sign), reduction, eager | chunk grid); "
